@@ -4,14 +4,16 @@ Line-protocol driver for the gcno/gcda model (properties C15 and C08).
   compute <branch 0|1> <version> <checksum> <recs|-> <gcda>*   -> ok K<hexfile>=<cov> … | err <kind> | panic | diverge
   state   <version> <checksum> <recs|-> <gcda>*                -> ok <fn>;<fn>… (what `{:?}` of the Gcno shows after `stop`:
                                                                   per block its counter, source and destination arcs with counters, lines)
+  computeb <branch 0|1> <hex gcno> <hex gcda>* ('-' = empty)                -> the same answer as `compute`, from the file bytes (Gcno/Bin.lean)
   tree    <version> <checksum> <recs|->                         -> ok <0|1 per function> (spanning-tree certificate found)
 
   <recs>  = records joined by ';':  F<ident>,<lsum>,<csum>,<start>,<end>,<hexname>,<hexfile>
                                      B<n>     A<src>,<dst>:<flags>,…     L<blk>,<line>|f<hexfile>,…    S (buffer ends here)
-  <gcda>  = D<version>:<checksum>(;f<len>,<ident>,<lsum>,<csum> | ;a<len>,<v>,… | ;o | ;s)*
+  <gcda>  = D<version>:<checksum>(;f<len>,<ident>,<lsum>,<csum> | ;a<len>,<v>,… | ;o | ;s (buffer ends) | ;r (record shorter than its content))*
 -/
 import GrcovModel.Gcno
 import GrcovModel.Gcno.Tree
+import GrcovModel.Gcno.Bin
 import GrcovModel.Drv.Merge
 namespace Grcov.Drv
 open Grcov Grcov.Gcno
@@ -61,7 +63,8 @@ def gcnoParseDRec (s : String) : Option DRec :=
     | len :: vs => do pure (.arcs (← gcnoNat len) (← vs.mapM gcnoNat))
     | _ => none
   | ['o'] => some .other
-  | ['s'] => some .short
+  | ['s'] => some (.fail .short)
+  | ['r'] => some (.fail .recordLen)
   | _ => none
 
 def gcnoParseGcda (s : String) : Option Gcda :=
@@ -79,7 +82,7 @@ def gcnoShowErr : ErrKind → String
   | .fileType => "fileType" | .version => "version" | .versionMismatch => "versionMismatch"
   | .checksumMismatch => "checksumMismatch" | .headerLen => "headerLen" | .fnIdent => "fnIdent"
   | .fnChecksum => "fnChecksum" | .edgeCount => "edgeCount" | .short => "short"
-  | .blockNo => "blockNo"
+  | .blockNo => "blockNo" | .recordLen => "recordLen"
 
 def gcnoShowOutcome {α : Type} (sh : α → String) : Outcome α → String
   | .ok a => let t := sh a; if t.isEmpty then "ok" else "ok " ++ t
@@ -115,6 +118,11 @@ def handleGcno : List String → String
       gcnoShowOutcome gcnoShowState
         ((build v c recs).bind fun g => (addGcdas g State.zero ds).bind fun st => stop g st)
     | _, _, _, _ => "bad-op"
+  | "computeb" :: br :: gcno :: ds =>
+    let unhex := fun (t : String) => if t = "-" then some [] else fromHex t
+    match unhex gcno, ds.mapM unhex with
+    | some gcno, some ds => gcnoShowOutcome gcnoShowResults (computeBytes gcno ds (br == "1"))
+    | _, _ => "bad-op"
   | ["tree", v, c, recs] =>
     match gcnoNat v, gcnoNat c, gcnoParseRecs recs with
     | some v, some c, some recs =>
